@@ -29,6 +29,12 @@ CHECKS['C04'] = dict(
    note='Trusted: Coq kernel; gen_params.py (matrix extraction by parsing 16 probes with the real parser); hand model of Expression.parse/with_units/analyze_number; python float vs exact rationals covered by correspondence (1e-9). Modelling assumption: an LR automaton treats operator sequences as its operator-pair decisions dictate.',
    design='3/C04')
 
+CHECKS['C09'] = dict(
+   technique='Coq proof over exact rationals (model of color.py with constants, rounding functions, clamp, spin hue arithmetic and mix weights translated from source) + exhaustive-grid correspondence against the float implementation',
+   text='Theorems C09_shift/_greyscale/_spin/_mix/_hsl/_rgb: for every colour and every rational amount/angle/weight the model result is a well-formed #rrggbb whose channels are the exactly computed values (hand-transcribed colorsys = the standard conversion; named component shifted and clamped; hue modulo 360; weighted average) rounded to the nearest integer (mix: within one unit); C09_spin_periodic; C09_rgba_zero (decimal channels). The nearness predicate proved of the model is the same executable predicate the correspondence applies to the real code on all 4096 short colours x the amount/angle grid (thorough) or a sample (quick).',
+   note='PARTIAL: the code computes in binary floating point, the model in exact rationals; no theorem relates the two, the gap is covered by the grid correspondence (ties on the grid are exact or >= 1e-7 away). Trusted: Coq kernel; gen_params.py/py2coq; hand transcription of colorsys and of the Color method wiring.',
+   design='3/C09')
+
 NOT_YET = {}
 
 
